@@ -140,3 +140,18 @@ Example ex_session :
   lookup (snd (s_cfg (fst (run eval_release s [nth 3 ex_prog SComment])))) "b"
     = Some (VNum (num_of_Z 11)).
 Proof. vm_compute. repeat split; reflexivity. Qed.
+
+(* ---- ... and for the evaluator with EVERY built-in of the table and `^` (EvalAll.v: libm, Unicode
+        tables, clock, lambda text are fields of the oracle record o), for every oracle ---- *)
+Require Import Blots.EvalAll Blots.proofs.AllInst.
+Theorem C03_function_names_write_once_all : forall o release d prog s,
+  store_le (fst (s_cfg s))
+           (fst (s_cfg (fst (run (evalD release (binop_all o) (builtin_all o) d) s prog)))).
+Proof.
+  intros o release d. apply run_store.
+  exact (evalD_store_le release (binop_all o) (builtin_all o) (binop_all_mono o) (builtin_all_mono o) d).
+Qed.
+Check C03_function_names_write_once_all : forall o release d prog s,
+  store_le (fst (s_cfg s))
+           (fst (s_cfg (fst (run (evalD release (binop_all o) (builtin_all o) d) s prog)))).
+Print Assumptions C03_function_names_write_once_all.
